@@ -256,7 +256,7 @@ func init() {
 		emit := func(st int, l *layout, req *redis.RespValue) {
 			e := getEnv(st, l)
 			fmt.Fprintf(cases, "%d %s %s %s\n", st, hex.EncodeToString([]byte(strings.Join(l.masters, ","))), hex.EncodeToString([]byte(l.text())), valString(req))
-			reply, timedOut := e.Do(req, 2*time.Second)
+			reply, timedOut := envDo(e, req, 2*time.Second)
 			time.Sleep(0)
 			var out string
 			switch {
